@@ -1,4 +1,5 @@
 import Scion.Proofs.Combinator
+import Scion.Gen.Comb
 /-!
 # C28 — Combined paths are well-formed and their metadata is accurate
 
@@ -237,6 +238,35 @@ theorem filterLong_mem (ps : List Path) (p : Path) :
 theorem filterLong_sublist (ps : List Path) : (filterLongPaths ps).Sublist ps :=
   List.filter_sublist
 
+/-! ### `filterDuplicates`: one path per interface sequence, the latest expiry kept -/
+
+/-- no two returned paths share an interface sequence -/
+theorem dedup_unique (ps : List Path) :
+    (filterDuplicates ps).Pairwise fun a b => a.intfs ≠ b.intfs :=
+  filterDuplicates_unique ps
+
+/-- every interface sequence of the input is still represented, by a path expiring no earlier -/
+theorem dedup_covers (ps : List Path) (p : Path) (hp : p ∈ ps) :
+    ∃ q ∈ filterDuplicates ps, q.intfs = p.intfs ∧ p.expiry ≤ q.expiry :=
+  filterDuplicates_covers ps p hp
+
+/-- the one kept has the latest expiry among the paths with its interface sequence -/
+theorem dedup_latest (ps : List Path) (q : Path) (hq : q ∈ filterDuplicates ps)
+    (p : Path) (hp : p ∈ ps) (hfp : p.intfs = q.intfs) : p.expiry ≤ q.expiry :=
+  filterDuplicates_latest ps q hq p hp hfp
+
+/-- the kept paths are input paths, in their original order -/
+theorem dedup_sublist (ps : List Path) : (filterDuplicates ps).Sublist ps :=
+  filterDuplicates_sublist ps
+
+/-- unless identical paths are requested, no two paths returned by `Combine` share an interface
+sequence -/
+theorem combine_unique (ups cores downs : List Seg) (src dst : Nat) :
+    (combineSpec ups cores downs src dst false).Pairwise fun a b => a.intfs ≠ b.intfs := by
+  unfold combineSpec
+  simp only [Bool.false_eq_true, if_false]
+  exact filterDuplicates_unique _
+
 /-! ### order of the result -/
 
 /-- the result of `Combine` (either mode) is ordered by non-decreasing weight -/
@@ -270,6 +300,23 @@ theorem combine_mem (ups cores downs : List Seg) (src dst : Nat) (all : Bool) (p
   split at hp
   · next q hq => cases hp; exact hq
   · cases hp
+
+/-! ### facts regenerated from the source (T3) -/
+
+def kindName : Kind → String
+  | .up => "up" | .core => "core" | .down => "down"
+
+/-- the model's `validNextSeg` is the table read off the `switch` in graph.go -/
+theorem gen_validNext (a b : Kind) :
+    validNextSeg (some a) b = ((Scion.Gen.Comb.validNext.lookup (kindName a)).getD []).contains (kindName b)
+    ∧ validNextSeg none b = true ∧ Scion.Gen.Comb.firstSegAny = "true" := by
+  cases a <;> cases b <;> decide
+
+/-- the bound of `filterLongPaths` in combinator.go is the model's: more than two entries -/
+theorem gen_long_bound (intfs : List Iface) :
+    Scion.Gen.Comb.longOp = ">" ∧
+    isLong intfs = intfs.any fun i => decide ((intfs.map (·.ia)).count i.ia > Scion.Gen.Comb.longBound) := by
+  exact ⟨by decide, rfl⟩
 
 /-! ### non-vacuity: a two-level topology with a shortcut and a peering link
 
